@@ -48,6 +48,13 @@ var props = map[string]*propCfg{
 	"C11": {level: "fault_enumeration", quickWall: 25, thorWall: 300, chunk: 2000},
 	"C07": {level: "exploration", quickWall: 25, thorWall: 900, chunk: 1000},
 	"C10": {level: "exploration", quickWall: 25, thorWall: 900, chunk: 1000},
+	// several harness units share the budget
+	"C01": {level: "exploration", quickWall: 44, thorWall: 900, chunk: 400},
+	"C09": {level: "exploration", quickWall: 44, thorWall: 900, chunk: 400},
+	"C04": {level: "exploration", quickWall: 39, thorWall: 900, chunk: 400},
+	"C02": {level: "exploration", quickWall: 36, thorWall: 900, chunk: 400},
+	"C12": {level: "exploration", quickWall: 36, thorWall: 900, chunk: 400},
+	"C06": {level: "exploration", quickWall: 35, thorWall: 900, chunk: 200},
 }
 
 func cfgOf(id string) *propCfg {
